@@ -733,6 +733,12 @@ func (p TXParamSetupReqPayload) MarshalBinary() ([]byte, error) {
 	if p.MaxEIRP > 15 {
 		return nil, errors.New("lorawan: max value of MaxEIRP is 15")
 	}
+	if p.UplinkDwellTime != DwellTimeNoLimit && p.UplinkDwellTime != DwellTime400ms {
+		return nil, errors.New("lorawan: UplinkDwellTime must be DwellTimeNoLimit or DwellTime400ms")
+	}
+	if p.DownlinkDwelltime != DwellTimeNoLimit && p.DownlinkDwelltime != DwellTime400ms {
+		return nil, errors.New("lorawan: DownlinkDwelltime must be DwellTimeNoLimit or DwellTime400ms")
+	}
 
 	b := p.MaxEIRP
 
